@@ -105,6 +105,7 @@ type worker struct {
 	starts  int
 	ticks   float64
 	caseOff int64 // size of the stderr log when the current case was sent
+	filt    []FSpec // set for the next request: decode the file as a filtered chunk
 }
 
 var workerSeq int64
@@ -262,7 +263,7 @@ func (w *worker) exec1(path string, bd budget, earlyCPU float64, early func(samp
 	}
 	w.nextID++
 	id := w.nextID
-	rq, _ := json.Marshal(Req{ID: id, Path: path})
+	rq, _ := json.Marshal(Req{ID: id, Path: path, Filters: w.filt})
 	cpu0 := w.cpuSeconds()
 	t0 := time.Now()
 	w.caseOff = 0
